@@ -273,15 +273,21 @@ def _sed_mv(cmd):
     return None
 
 
-def run_real(script, root, real_shell=True):
-    """Runs the real duplicate_checker.main on the script in `root` (scratch).  Returns dict(raised, ret, flags, eof, dir)."""
+def run_real(script, root, real_shell=True, block=False):
+    """Runs the real duplicate_checker.main on the script in `root` (scratch).  Returns dict(raised, ret, flags, eof, dir).
+
+    `block=True` (the multi-rank runs, harness/workers/c03_script_ranks.py): the stand-in for sympy_simplify is the one that
+    works the way the real one is organised on P ranks - every rank slices its `split_idx` block (statement for statement
+    simplifier.py 290-298), answers from the script for the items of ITS block only, and hands the block to the REAL
+    `simplifier.make_changes`, which gathers, broadcasts and splices.  The scripted answer for an item depends on that item
+    alone (a table lookup by its name): the scripted CAS is per-item by construction (`PerItem` of Props/C03c)."""
     from esr.generation import simplifier, duplicate_checker as dc
     tables, symp = script["tables"], script["symp"]
     st = dict(g=-1, flags=[], eof=[], ret=None, odd=[])
     os.makedirs(os.path.join(root, "generation"), exist_ok=True)
     outdir = os.path.join(root, "function_library", "core_maths", "compl_%d" % script["compl"])
-    if os.path.isdir(outdir):                                     # nothing of an earlier script may be left
-        for e in os.scandir(outdir):
+    if os.path.isdir(outdir) and not block:                       # nothing of an earlier script may be left
+        for e in os.scandir(outdir):                              # (block runs get a fresh root per script)
             os.unlink(e.path)
 
     class Gen(object):
@@ -324,6 +330,40 @@ def run_real(script, root, real_shell=True):
             else:
                 t2.append((all_inv_subs[k] or []) + [NAN if t == NAN else tok_text(t) for t in ent[1]])
         return f2, e2, t2
+
+    def sympy_simplify_block(all_fun, all_sym, all_inv_subs, max_param, expand_fun=True, tmax=1, check_perm=False):
+        import numpy as np
+        from esr.generation import utils
+        if max_param == 0:
+            st["g"] += 1
+            st["flags"].append(set())
+        st["flags"][-1].add((bool(expand_fun), bool(check_perm)))
+        tab = tables[st["g"]] if st["g"] < len(tables) else {}
+        i = np.atleast_1d(utils.split_idx(len(all_inv_subs), simplifier.rank, simplifier.size))     # 290-298
+        if len(i) == 0:
+            str_fun = []
+            sym_fun = []
+            inv_subs_fun = []
+        else:
+            str_fun = all_fun[i[0]:i[-1]+1]
+            sym_fun = all_sym[i[0]:i[-1]+1]
+            inv_subs_fun = all_inv_subs[i[0]:i[-1]+1]
+        st["blocks"].append(len(str_fun))
+        for k in range(len(str_fun)):
+            src = sym_fun[k].name
+            if src != str_fun[k]:
+                st["odd"].append((str_fun[k], src))
+            ent = tab.get(src)
+            if ent is None:
+                continue
+            str_fun[k] = ent[0]; sym_fun[k] = _Obj(ent[0])
+            if ent[1] is not None:
+                inv_subs_fun[k] = (inv_subs_fun[k] or []) + [NAN if t == NAN else tok_text(t) for t in ent[1]]
+        return simplifier.make_changes(all_fun, all_sym, all_inv_subs, str_fun, sym_fun, inv_subs_fun)        # 693-694
+
+    st["blocks"] = []
+    if block:
+        sympy_simplify = sympy_simplify_block
 
     def expand_or_factor(all_sym, tmax=1, method='expand'):
         st["eof"].append((method, list(all_sym.keys())))
